@@ -446,7 +446,13 @@ impl<'a> Analysis<'a> {
                             ),
                         ));
                     }
-                    if conn.is_none() && !raw_end {
+                    // a peer end driven by the bridge: "written" counts what was taken from its local side, which the bridge (or the
+                    // BufStream of the default entry point) may still hold when it ends with an error - only a clean local
+                    // end-of-stream of a bridge that did not fail promises that everything taken was sent before the Finish
+                    let bridged_peer = self.case.bridges.iter().any(|b| b.stream as usize == i && b.end as usize == 1 - end);
+                    let bridge_failed = self.run.app_events().any(|(_, e)| matches!(e, AppEv::BridgeDone { stream, result: Err(_) } if *stream == i));
+                    let bridge_excused = bridged_peer && (peer.shutdown_at.is_none() || bridge_failed);
+                    if conn.is_none() && !raw_end && !bridge_excused {
                         if let Some(pd) = peer_done {
                             // everything the peer wrote before letting go was on the (ordered, reliable) wire before Finish/Reset
                             let w = peer.written_before(pd);
@@ -531,8 +537,11 @@ impl<'a> Analysis<'a> {
                         }
                     }
                 }
+                // (for an end driven by the bridge, "WriteOk" records bytes the bridge TOOK from the local side, which is not a
+                // completed stream write: the two clauses about writes that must fail do not apply to it)
+                let bridged_end = self.case.bridges.iter().any(|b| b.stream as usize == i && b.end as usize == end);
                 // writes after own shutdown must fail
-                if let Some(sd) = me.shutdown_at {
+                if let (Some(sd), false) = (me.shutdown_at, bridged_end) {
                     let before = me.written_before(sd);
                     if me.total_written() > before {
                         return Err(("c05-write-after-shutdown".into(), format!("stream {i} end {end}: a non-empty write succeeded after the local shutdown")));
@@ -542,7 +551,7 @@ impl<'a> Analysis<'a> {
                 if let Some(id) = s.flow_id {
                     let reset_at = self.run.events.iter().position(|e| matches!(&e.ev, Ev::Recv { side, msg: WMsg::Frame(RFrame::Reset { id: rid }) } if *side == my_side && *rid == id));
                     if let (Some(r), Some(oa)) = (reset_at, s.open_ok_at.or(s.accepted_at)) {
-                        if r > oa && me.total_written() > me.written_before(r) {
+                        if r > oa && !bridged_end && me.total_written() > me.written_before(r) {
                             return Err(("c05-write-after-abort".into(), format!("stream {i} end {end}: a non-empty write succeeded after the peer's Reset had been processed")));
                         }
                     }
